@@ -261,7 +261,8 @@ def run_check(prop, tier, seed, out=print):
         results = [_shard_main(args[0])]
     else:
         ctxmp = multiprocessing.get_context(os.environ.get("PV_MP", "spawn"))
-        with concurrent.futures.ProcessPoolExecutor(max_workers=min(int(os.environ.get("PV_WORKERS", "4")), nshards), mp_context=ctxmp) as ex:
+        workers = min(int(os.environ.get("PV_WORKERS", str(getattr(mod, "WORKERS", 4)))), nshards)
+        with concurrent.futures.ProcessPoolExecutor(max_workers=workers, mp_context=ctxmp) as ex:
             results = list(ex.map(_shard_main, args))
     for r in results:
         if not r["ok"]:
